@@ -150,6 +150,7 @@ class Batch:
         budget = float(os.environ.get("VSIM_BUDGET_S", cfg["budget_s"]))
         per_run_timeout = int(cfg.get("run_timeout_s", 300))
         t0 = time.time()
+        os.environ["VSIM_BATCH_OWNER"] = str(os.getpid())  # zygotes are shared by all workers of this run
         ctx = get_context("fork")
         ex = ProcessPoolExecutor(max_workers=self.workers, mp_context=ctx)
         pending = {}
@@ -159,7 +160,7 @@ class Batch:
             # keep the queue shallow so the time budget can stop dispatching
             def feed() -> None:
                 nonlocal submitted
-                while len(pending) < self.workers * 2 and time.time() - t0 < budget:
+                while len(pending) < self.workers + 1 and time.time() - t0 < budget:
                     try:
                         s = next(it)
                     except StopIteration:
@@ -180,6 +181,8 @@ class Batch:
                 except Exception:
                     self.harness_errors.append("seed %d: %s" % (s, traceback.format_exc()))
                     continue
+                if os.environ.get("VSIM_TRACE") == "1":
+                    print("TRACE t=%.1f seed=%d run_wall=%.1f" % (time.time() - t0, s, r.get("wall_s", -1)), file=sys.stderr, flush=True)
                 if "harness_error" in r:
                     self.harness_errors.append("seed %d: %s" % (s, r["harness_error"]))
                 else:
@@ -197,6 +200,12 @@ class Batch:
             except Exception:
                 pass
             ex.shutdown(wait=False, cancel_futures=True)
+            try:
+                from vsim.cluster import stop_all_zygotes
+
+                stop_all_zygotes(os.getpid())
+            except Exception:
+                pass
         self.wall = time.time() - t0
         self.results.sort(key=lambda r: seeds.index(r["seed"]) if r["seed"] in seeds else 0)
 
@@ -269,6 +278,7 @@ def determinism_selftest(check_id: str, tier: str, base_seed: int, seeds: list[i
     env["PYTHONHASHSEED"] = str(1 + (base_seed + 12345) % 1000)
     env["PYTHONPATH"] = VERIF
     env["VSIM_WORKERS"] = "1"
+    env.pop("VSIM_BATCH_OWNER", None)
     cmd = [
         sys.executable,
         "-B",
@@ -388,6 +398,9 @@ def main(argv: Optional[list[str]] = None) -> int:
         extra["determinism_selftest"] = st
         if not st["ok"]:
             batch.harness_errors.append("determinism self-test failed: %r" % st)
+    for r in results:
+        for note in r.get("harness_notes", []):
+            batch.harness_errors.append(note)
     for e in batch.harness_errors[:5]:
         print("HARNESS-ERROR: " + e, file=sys.stderr)
     ev = aggregate(check_id, tier, base_seed, mod, results, batch.wall, extra)
